@@ -10,13 +10,16 @@ EmptyObj == O(<<>>)
 AppObj   == O(<< <<App, S(Live)>>, <<TcUrl, SF(300, 3)>> >>)
 NestObj  == O(<< <<Level, O(<< <<Code, N(Num2_5)>>, <<App, B(TRUE)>> >>)>>, <<Code, Und>>, <<App, Nul>> >>)
 BigObj   == O(<< <<TcUrl, SF(65535, 5)>>, <<App, SF(0, 6)>> >>)
-Objs     == {EmptyObj, AppObj, NestObj} \cup (IF Thorough THEN {BigObj} ELSE {})
+\* property names may be empty: an empty name followed by a value is a pair, only 00 00 09 ends the object
+EKObj    == O(<< <<App, S(Live)>>, << <<>>, N(Num7)>>, <<Code, Nul>> >>)
+EKEnd    == O(<< <<App, B(FALSE)>>, << <<>>, S(Live)>> >>)
+Objs     == {EmptyObj, AppObj, NestObj, EKObj, EKEnd} \cup (IF Thorough THEN {BigObj} ELSE {})
 Names    == {S(Live), SF(0, 7), SF(300, 7)} \cup (IF Thorough THEN {SF(65535, 8)} ELSE {})
 U32s     == {<<0, 0>>, <<0, 1>>, <<0, 128>>, <<1, 0>>, <<32767, 65535>>, <<32768, 0>>, <<65535, 65535>>}
 STids    == IF Thorough THEN Tids ELSE {Num1, Num2_5, NumM31}
 
 Commands ==
-       {[k |-> "connect", tid |-> Num1, obj |-> o, hasargs |-> h, args |-> a] : o \in Objs, h \in BOOLEAN, a \in {EmptyObj, AppObj}}
+       {[k |-> "connect", tid |-> Num1, obj |-> o, hasargs |-> h, args |-> a] : o \in Objs, h \in BOOLEAN, a \in {EmptyObj, AppObj, EKObj}}
   \cup {[k |-> "connectRes", tid |-> t, obj |-> o, hasargs |-> h, args |-> a] : t \in STids, o \in Objs, h \in BOOLEAN, a \in {EmptyObj, NestObj}}
   \cup {[k |-> "createStream", tid |-> t, obj |-> o] : t \in Tids, o \in {Nul, Und, EmptyObj}}
   \cup {[k |-> "createStreamRes", tid |-> t, obj |-> Nul, sid |-> s] : t \in Tids, s \in {Num1, Num2_5, NumM31, Num0}}
@@ -24,7 +27,7 @@ Commands ==
   \cup {[k |-> "play", tid |-> t, obj |-> Nul, name |-> n] : t \in STids, n \in Names}
   \cup {[k |-> "call", cmd |-> c, tid |-> t, hasobj |-> ho[1], obj |-> o, hasargs |-> ho[2], args |-> a] :
            c \in {OnStatus, FCPublish, CloseStream}, t \in {Num0, Num3}, ho \in {<<FALSE, FALSE>>, <<TRUE, FALSE>>, <<TRUE, TRUE>>},
-           o \in {Nul, AppObj, N(Num2)}, a \in {Nul, AppObj, S(Live), B(TRUE), N(NumM31)}}
+           o \in {Nul, AppObj, N(Num2)}, a \in {Nul, AppObj, S(Live), B(TRUE), N(NumM31), EKEnd}}
 Controls ==
        {[k |-> "scs", hi |-> u[1], lo |-> u[2]] : u \in U32s}
   \cup {[k |-> "winack", hi |-> u[1], lo |-> u[2]] : u \in U32s}
